@@ -438,6 +438,62 @@ func runC04(p *core.Program, r *core.Report) {
 		}
 	}
 	c04R2(p, r)
+	c04R3(p, r)
+}
+
+// c04R3: own-output feedback. The sample generators emit methods (DeepCopy,
+// DeepCopyInto, DeepCopyAs, RuntimeDoc) into the package they process, and the
+// next run type-checks the package *with* that file. A decision that depends on
+// the method set of a type of the processed package therefore depends on the
+// generator's own previous output: run 2 sees what run 1 wrote, and the output is
+// not a fixed point. Every method-set query in a generator package is an
+// obligation; there is no idiom that makes one safe in general, so each site is
+// either a finding or needs a reviewed reason (none today).
+var methodSetQueries = map[string]bool{
+	"(*go/types.Named).NumMethods": true, "(*go/types.Named).Method": true,
+	"go/types.NewMethodSet": true, "go/types.LookupFieldOrMethod": true, "go/types.MissingMethod": true,
+	"go/types.Implements": true, "go/types.Satisfies": true,
+	"(*go/types.Interface).NumMethods": false, // methods of an interface type are declared, not generated
+}
+
+func c04R3(p *core.Program, r *core.Report) {
+	const rule = "R3"
+	r.Floor(rule, 1)
+	// one obligation per generator package, identified by the package and the number of
+	// functions that query (moving the scan into a helper is the same site; a further
+	// querying function is a new one)
+	type site struct {
+		pkg   *core.Func
+		funcs map[string]bool
+		pos   token.Pos
+	}
+	sites := map[string]*site{}
+	var order []string
+	for _, cs := range allCalls(p) {
+		rel := core.RelPkg(cs.In.Pkg.PkgPath)
+		if !strings.HasPrefix(rel, "devpkg/") || cs.In.Body == nil {
+			continue
+		}
+		q := methodSetQueries[cs.Name]
+		if !q && strings.HasSuffix(cs.Name, ").MethodsOf") && strings.Contains(cs.Name, core.ModulePath+"/pkg/types") {
+			q = true
+		}
+		if !q {
+			continue
+		}
+		st := sites[rel]
+		if st == nil {
+			st = &site{pkg: &core.Func{Pkg: cs.In.Pkg, Name: "<package>"}, funcs: map[string]bool{}, pos: cs.Call.Pos()}
+			sites[rel] = st
+			order = append(order, rel)
+		}
+		st.funcs[cs.In.Root().QName()] = true
+	}
+	for _, rel := range order {
+		st := sites[rel]
+		construct := "method-set query on a type that may belong to the processed package (in " + itoa(int64(len(st.funcs))) + " function(s))"
+		r.Bad(rule, st.pkg, construct, st.pos, "a generator decision depends on the methods a type has, and the generators add methods to the package they process: the next run sees the previous run's output in the method set and can decide differently (the output is not a fixed point of a second run)")
+	}
 }
 
 func c04Classify(p *core.Program, r *core.Report, f *core.Func, os OrderSource) {
